@@ -1,82 +1,101 @@
 (* C09/Properties.v — the property theorems only.  Each is closed by [exact] of a lemma from Proofs.v
    and followed by Print Assumptions.
 
-   Reading guide.  [lrun v sst0 evs] runs one session of the AAA component (variant v) from a fresh
-   process over ANY list of notifications evs: lifecycle-active, restored, released, bucket ticks with any
-   stats snapshot and any Accounting-Response outcome, process restarts, orphan prunes.  Its trace pairs every
-   notification with the calls made to the auth provider (Start / Interim c ok / Stop c).
-   [repaired] = the code with the three fixes of /verif/fixes/C09_*.patch; [defective] = the code as found.
-   Hypotheses:  lrun_wraps = false  — the uint64 cumulative never wrapped ("true total < 2^64");
+   Reading guide.  [lrun v g sst0 evs] runs one session (g: it is an l2gw session) of the AAA component, variant v,
+   from a fresh process over ANY list of notifications evs: lifecycle-active, restored, released, bucket ticks with
+   any stats snapshot and any Accounting-Response outcome, process restarts, orphan prunes.  Its trace pairs every
+   notification with the provider calls ISSUED (Start / Interim c ok / Stop c).  [drun] adds asynchronous delivery:
+   the calls that ARRIVE at the provider when Start calls may be delayed.
+   Variants:  [V fs fo fl] = /repo HEAD plus any subset of the three open repairs (fix_sent, fix_order, fix_l2stop);
+              [head] = V false false false = /repo HEAD;  [repaired] = V true true true;
+              [defective] = the code as first found (its three defects are fixed in /repo).
+   Hypotheses:  lrun_wraps = false  — no uint64 cumulative wrapped (C09_no_wrap_if_total_small gives it from inputs);
                 no_prune = true     — the 5-minute orphan deadline never passed for the session.       *)
 From OV Require Import Common.Base C09.Model C09.Proofs.
 Open Scope N_scope.
 
-(* Conformance to the bracket ledger (Model.mon_step), for all histories:
+(* ================= /repo HEAD and every subset of the open repairs ================= *)
+
+(* Conformance of the ISSUED calls to the bracket ledger (Model.mon_step), for all histories:
    first Active -> exactly one Start; Active/Restored again -> nothing; Restored never a Start;
-   Released with accounting open -> exactly one Stop, whose counters are >= the last acknowledged report;
-   Released otherwise -> nothing; a tick of an announced session -> exactly one Interim with counters >= the
-   last acknowledged report (acknowledged = the send succeeded), nothing for a session not (yet) announced;
-   restart keeps open accounting exactly when a checkpoint was written (Start or acknowledged Interim). *)
+   Released with accounting open -> exactly one Stop, >= the last acknowledged report (fs: and >= the last sent);
+   Released otherwise -> nothing; a tick of an announced session -> exactly one Interim, same floor. *)
 Theorem C09_bracket :
-  forall g evs, lrun_wraps repaired g sst0 evs = false ->
-  accepted (snd (lrun repaired g sst0 evs)) = true.
+  forall fs fo fl g evs, lrun_wraps (V fs fo fl) g sst0 evs = false ->
+  accepted fs (snd (lrun (V fs fo fl) g sst0 evs)) = true.
 Proof. exact conforms. Qed.
 Print Assumptions C09_bracket.
 
 (* at most one Start per bracket, however often Active / Restored are repeated and across restarts *)
 Theorem C09_start_once :
-  forall g evs, lrun_wraps repaired g sst0 evs = false -> no_prune evs = true ->
-  bracketed false (outputs (snd (lrun repaired g sst0 evs))) = true.
+  forall fs fo fl g evs, lrun_wraps (V fs fo fl) g sst0 evs = false -> no_prune evs = true ->
+  bracketed false (outputs (snd (lrun (V fs fo fl) g sst0 evs))) = true.
 Proof. exact start_once. Qed.
 Print Assumptions C09_start_once.
 
 (* Stops only answer Released, at most one each, and never two without a new announcement in between *)
 Theorem C09_stop_once :
-  forall g evs, lrun_wraps repaired g sst0 evs = false ->
-  stops_ok false (snd (lrun repaired g sst0 evs)) = true.
+  forall fs fo fl g evs, lrun_wraps (V fs fo fl) g sst0 evs = false ->
+  stops_ok false (snd (lrun (V fs fo fl) g sst0 evs)) = true.
 Proof. exact stop_once. Qed.
 Print Assumptions C09_stop_once.
 
-(* usage counters never go backwards: every Interim and the final Stop carry values pointwise >= the last
-   acknowledged Interim of the bracket — for every sequence of readings (resets to any smaller value, missing
-   readings, unavailable snapshots, renumbered interfaces) and every pattern of send failures and restarts *)
-Theorem C09_monotone :
-  forall g evs, lrun_wraps repaired g sst0 evs = false -> no_prune evs = true ->
-  nondecreasing c4z (outputs (snd (lrun repaired g sst0 evs))) = true.
-Proof. exact monotone. Qed.
-Print Assumptions C09_monotone.
+(* a session that is never restored: the issued stream is a prefix of (Start Interim* Stop)* — no Interim or Stop
+   outside a bracket, no second Start inside one *)
+Theorem C09_strict_bracket_issued :
+  forall fs fo fl g evs, lrun_wraps (V fs fo fl) g sst0 evs = false -> no_prune evs = true ->
+  never_restored evs = true ->
+  strict false (outputs (snd (lrun (V fs fo fl) g sst0 evs))) = true.
+Proof. exact strict_issued. Qed.
+Print Assumptions C09_strict_bracket_issued.
 
-(* "provided the true total stays < 2^64", stated on the inputs only: if per counter the sum of all readings
-   appearing in the history is below 2^64, nothing wraps, hence the counters never go backwards *)
+(* every Interim and the Stop are >= the last ACKNOWLEDGED report of the bracket (all readings, failures, restarts) *)
+Theorem C09_monotone_acknowledged :
+  forall fs fo fl g evs, lrun_wraps (V fs fo fl) g sst0 evs = false -> no_prune evs = true ->
+  nondecreasing c4z (outputs (snd (lrun (V fs fo fl) g sst0 evs))) = true.
+Proof. exact monotone. Qed.
+Print Assumptions C09_monotone_acknowledged.
+
+(* "from one report to the next" (every value SENT): holds at HEAD as long as no Accounting-Response is lost;
+   with a lost response HEAD violates it (C09_monotone_sent_refuted, recorded finding) *)
+Theorem C09_monotone_sent_if_acknowledged :
+  forall fs fo fl g evs, lrun_wraps (V fs fo fl) g sst0 evs = false -> no_prune evs = true ->
+  all_acked evs = true ->
+  nondecreasing_sent c4z (outputs (snd (lrun (V fs fo fl) g sst0 evs))) = true.
+Proof. exact monotone_sent_if_acked. Qed.
+Print Assumptions C09_monotone_sent_if_acknowledged.
+
+(* input-only form of "the true total stays < 2^64" (sessions reading the interface table, HEAD floor) *)
 Theorem C09_no_wrap_if_total_small :
-  forall evs, c4_lt_W (total_readings evs) -> lrun_wraps repaired false sst0 evs = false.
+  forall fo fl evs, c4_lt_W (total_readings evs) -> lrun_wraps (V false fo fl) false sst0 evs = false.
 Proof. exact no_wrap_if_total_small. Qed.
 Print Assumptions C09_no_wrap_if_total_small.
 
 Theorem C09_monotone_total :
-  forall evs, c4_lt_W (total_readings evs) -> no_prune evs = true ->
-  nondecreasing c4z (outputs (snd (lrun repaired false sst0 evs))) = true.
+  forall fo fl evs, c4_lt_W (total_readings evs) -> no_prune evs = true ->
+  nondecreasing c4z (outputs (snd (lrun (V false fo fl) false sst0 evs))) = true.
 Proof. exact monotone_total. Qed.
 Print Assumptions C09_monotone_total.
 
-(* one report, any session state: the cumulative returned is never below the last reported values *)
-Theorem C09_report_not_below_last :
-  forall g tick e sn, report_wraps repaired g tick e sn = false -> c4_le (last e) (snd (report repaired g tick e sn)).
-Proof. exact report_ge. Qed.
-Print Assumptions C09_report_not_below_last.
+(* one report, any session state: never below the floor (last reported; with fix_sent also the last sent) *)
+Theorem C09_report_not_below_floor :
+  forall v g tick e sn, fix_counters v = true -> report_wraps v g tick e sn = false ->
+  c4_le (floor v e) (snd (report v g tick e sn)).
+Proof. exact report_ge_floor. Qed.
+Print Assumptions C09_report_not_below_floor.
 
 (* repeated notifications are silent, from ANY component state s *)
 Theorem C09_repeated_announce_silent :
-  forall g s ev i h j k, (ev = EActive i h \/ ev = ERestored i h) ->
-  let s' := fst (lstep repaired g s ev) in
-  snd (lstep repaired g s' (EActive j k)) = [] /\ snd (lstep repaired g s' (ERestored j k)) = [].
+  forall fs fo fl g s ev i h j k, (ev = EActive i h \/ ev = ERestored i h) ->
+  let s' := fst (lstep (V fs fo fl) g s ev) in
+  snd (lstep (V fs fo fl) g s' (EActive j k)) = [] /\ snd (lstep (V fs fo fl) g s' (ERestored j k)) = [].
 Proof. exact after_announce_silent. Qed.
 Print Assumptions C09_repeated_announce_silent.
 
 Theorem C09_repeated_release_silent :
-  forall g s sn sn',
-  let s' := fst (lstep repaired g s (EReleased sn)) in
-  s' = sst0 /\ snd (lstep repaired g s' (EReleased sn')) = [].
+  forall fs fo fl g s sn sn',
+  let s' := fst (lstep (V fs fo fl) g s (EReleased sn)) in
+  s' = sst0 /\ snd (lstep (V fs fo fl) g s' (EReleased sn')) = [].
 Proof. exact after_release_silent. Qed.
 Print Assumptions C09_repeated_release_silent.
 
@@ -86,87 +105,136 @@ Theorem C09_restore_never_starts :
 Proof. exact restore_never_starts. Qed.
 Print Assumptions C09_restore_never_starts.
 
-(* the component is the product of the per-session machines: after any component-level history the state
-   of session j is the per-session run over the notifications addressed to j *)
+(* the component is the product of the per-session machines *)
 Theorem C09_component_is_product :
   forall v bk tys evs g j s, nth_error g j = Some s ->
   nth_error (grun v bk tys g evs) j = Some (fst (lrun v (is_l2gw tys j) s (local_events bk j evs))).
 Proof. exact component_is_product. Qed.
 Print Assumptions C09_component_is_product.
 
-(* ---------------- non-vacuity ---------------- *)
-Definition rd (i a : N) : snaps := Snaps (Some [(i, C4 a (a / 2) (a / 100) (a / 200))]) None.
-(* l2gw segment: entry i carries (a bytes, a/100 packets); interface table: index i carries 7 *)
-Definition rdg (i a : N) : snaps := Snaps (Some [(i, C4 7 7 7 7)]) (Some [(i, (a, a / 100))]).
-(* Start; 400; 1000; counter reset to 5; failed send; restart + renumbering; missing reading; release *)
-Definition ex_hist : list sev :=
-  [EActive 5 0; EActive 5 0; ETick (rd 5 400) true; ETick (rd 5 1000) true; ETick (rd 5 5) true;
-   ETick (rd 5 20) false; ERestart; EPrune false; ERestored 6 0; ETick (rd 5 7) true; ETick (rd 6 3) true;
-   EReleased (rd 6 9); EReleased (rd 6 9)].
-Example C09_nonvacuous :
-  lrun_wraps repaired false sst0 ex_hist = false /\ no_prune ex_hist = true /\
-  c4_leb (total_readings ex_hist) (C4 (W - 1) (W - 1) (W - 1) (W - 1)) = true /\
-  map rxb (flat_map (fun o => match o with Interim c _ => [c] | Stop c => [c] | Start => [] end)
-                    (outputs (snd (lrun repaired false sst0 ex_hist)))) = [400; 1000; 1005; 1020; 1005; 1008; 1014] /\
-  length (filter (fun o => match o with Start => true | _ => false end)
-                 (outputs (snd (lrun repaired false sst0 ex_hist)))) = 1%nat /\
-  length (filter (fun o => match o with Stop _ => true | _ => false end)
-                 (outputs (snd (lrun repaired false sst0 ex_hist)))) = 1%nat.
-Proof. vm_compute. repeat split. Qed.
-Print Assumptions C09_nonvacuous.
+(* when no call is delayed the calls arrive in the order they were issued (any variant) — this is the regime the
+   sequential correspondence harness enforces *)
+Theorem C09_arrival_is_issue_when_no_delay :
+  forall v g xs d, no_delay xs = true -> d_hs d = false -> d_held d = [] ->
+  snd (drun v g d xs) = snd (fst (drun v g d xs)).
+Proof. exact arrived_eq_issued. Qed.
+Print Assumptions C09_arrival_is_issue_when_no_delay.
 
-(* ---- plugins/auth/radius/accounting.go: the counters on the RADIUS wire ----
-   What an accounting server reconstructs from Acct-*-Octets + Acct-*-Gigawords (and Acct-*-Packets) of an
-   Accounting-Request is exactly the value handed to the provider — for EVERY Acct-Status-Type st (Start, Interim,
-   Stop), every octet counter < 2^64 and every packet counter < 2^32 (RADIUS cannot carry more). *)
+(* ---- plugins/auth/radius/accounting.go: the counters on the RADIUS wire ---- *)
 Theorem C09_wire_roundtrip :
   forall st c, wire_range c = true -> decode_wire (encode_wire st c) = c.
 Proof. exact wire_roundtrip. Qed.
 Print Assumptions C09_wire_roundtrip.
 
-(* hence the order of two reports is preserved on the wire, whatever their status types *)
 Theorem C09_wire_monotone :
   forall st st' c c', wire_range c = true -> wire_range c' = true -> c4_le c c' ->
   c4_le (decode_wire (encode_wire st c)) (decode_wire (encode_wire st' c')).
 Proof. exact wire_monotone. Qed.
 Print Assumptions C09_wire_monotone.
 
-(* end to end: the stream as decoded by the accounting server never goes backwards *)
 Theorem C09_monotone_on_wire :
-  forall g evs, lrun_wraps repaired g sst0 evs = false -> no_prune evs = true ->
-  forallb (fun o => wire_range (counters_of o)) (outputs (snd (lrun repaired g sst0 evs))) = true ->
-  nondecreasing c4z (map through_wire (outputs (snd (lrun repaired g sst0 evs)))) = true.
+  forall fs fo fl g evs, lrun_wraps (V fs fo fl) g sst0 evs = false -> no_prune evs = true ->
+  forallb (fun o => wire_range (counters_of o)) (outputs (snd (lrun (V fs fo fl) g sst0 evs))) = true ->
+  nondecreasing c4z (map through_wire (outputs (snd (lrun (V fs fo fl) g sst0 evs)))) = true.
 Proof. exact monotone_on_wire. Qed.
 Print Assumptions C09_monotone_on_wire.
 
-(* a Stop at 2^32 + 2000000 octets carries Gigawords 1; dropping the attribute would decode to 2000000 *)
+(* ================= with the open repairs ================= *)
+
+(* fix_sent: every Interim and the Stop are >= the last report SENT, acknowledged or not — all histories *)
+Theorem C09_monotone_sent :
+  forall fo fl g evs, lrun_wraps (V true fo fl) g sst0 evs = false -> no_prune evs = true ->
+  nondecreasing_sent c4z (outputs (snd (lrun (V true fo fl) g sst0 evs))) = true.
+Proof. exact monotone_sent. Qed.
+Print Assumptions C09_monotone_sent.
+
+(* fix_order: whatever is delayed, the calls that have ARRIVED followed by those still held are exactly the calls
+   issued, in issue order *)
+Theorem C09_arrival_is_prefix_of_issue :
+  forall fs fl g xs,
+  let '(d', iss, arr) := drun (V fs true fl) g dst0 xs in arr ++ d_held d' = iss.
+Proof. exact arrived_prefix. Qed.
+Print Assumptions C09_arrival_is_prefix_of_issue.
+
+(* hence the stream SEEN BY THE BACKEND is strictly bracketed ... *)
+Theorem C09_delivered_strict :
+  forall fs fl g xs,
+  lrun_wraps (V fs true fl) g sst0 (dev_events xs) = false -> no_prune (dev_events xs) = true ->
+  never_restored (dev_events xs) = true ->
+  strict false (snd (drun (V fs true fl) g dst0 xs)) = true.
+Proof. exact delivered_strict. Qed.
+Print Assumptions C09_delivered_strict.
+
+(* ... and (with fix_sent) never goes backwards from one arrived report to the next *)
+Theorem C09_delivered_monotone_sent :
+  forall fl g xs,
+  lrun_wraps (V true true fl) g sst0 (dev_events xs) = false -> no_prune (dev_events xs) = true ->
+  nondecreasing_sent c4z (snd (drun (V true true fl) g dst0 xs)) = true.
+Proof. exact delivered_monotone_sent. Qed.
+Print Assumptions C09_delivered_monotone_sent.
+
+(* ================= non-vacuity ================= *)
+Definition rd (i a : N) : snaps := Snaps (Some [(i, C4 a (a / 2) (a / 100) (a / 200))]) None.
+Definition rdg (i a : N) : snaps := Snaps (Some [(i, C4 7 7 7 7)]) (Some [(i, (a, a / 100))]).
+Definition sent_rxb (l : list out) : list N :=
+  map rxb (flat_map (fun o => match o with Interim c _ => [c] | Stop c => [c] | Start => [] end) l).
+(* Start; 400; 1000; counter reset to 5; failed send; restart + renumbering; missing reading; release *)
+Definition ex_hist : list sev :=
+  [EActive 5 0; EActive 5 0; ETick (rd 5 400) true; ETick (rd 5 1000) true; ETick (rd 5 5) true;
+   ETick (rd 5 20) false; ERestart; EPrune false; ERestored 6 0; ETick (rd 5 7) true; ETick (rd 6 3) true;
+   EReleased (rd 6 9); EReleased (rd 6 9)].
+Example C09_nonvacuous :
+  lrun_wraps head false sst0 ex_hist = false /\ no_prune ex_hist = true /\
+  c4_leb (total_readings ex_hist) (C4 (W - 1) (W - 1) (W - 1) (W - 1)) = true /\
+  (* HEAD: 1020 was sent, not acknowledged; after the restart 1005 is sent *)
+  sent_rxb (outputs (snd (lrun head false sst0 ex_hist))) = [400; 1000; 1005; 1020; 1005; 1008; 1014] /\
+  (* with the sent high-water mark: never below 1020 again *)
+  sent_rxb (outputs (snd (lrun repaired false sst0 ex_hist))) = [400; 1000; 1005; 1020; 1020; 1023; 1029] /\
+  lrun_wraps repaired false sst0 ex_hist = false /\
+  length (filter (fun o => match o with Start => true | _ => false end)
+                 (outputs (snd (lrun head false sst0 ex_hist)))) = 1%nat /\
+  length (filter (fun o => match o with Stop _ => true | _ => false end)
+                 (outputs (snd (lrun head false sst0 ex_hist)))) = 1%nat.
+Proof. vm_compute. repeat split. Qed.
+Print Assumptions C09_nonvacuous.
+
 Example C09_wire_nonvacuous :
   let c := C4 (W32 + 2000000) (2 * W32 + 9000) 4296967 (W32 - 1) in
   wire_range c = true /\ w_in_giga (encode_wire 2 c) = Some 1 /\ w_out_giga (encode_wire 2 c) = Some 2 /\
   w_in_oct (encode_wire 2 c) = 2000000 /\ decode_wire (encode_wire 2 c) = c /\
   w_in_giga (encode_wire 3 (C4 (W32 - 1) 0 0 0)) = None /\
-  forallb (fun o => wire_range (counters_of o)) (outputs (snd (lrun repaired false sst0 ex_hist))) = true.
+  forallb (fun o => wire_range (counters_of o)) (outputs (snd (lrun head false sst0 ex_hist))) = true.
 Proof. vm_compute. repeat split. Qed.
 Print Assumptions C09_wire_nonvacuous.
 
-
-(* an l2gw session: ticks read the l2gw stats segment (entries 3 = access, 4 = handoff), the segment restarts
-   (900 -> 40), the handoff index is lost by a restart until the session is restored; the Stop reads the
-   interface table at index 3 (value 7), as handleSessionRelease does for every access type *)
+(* an l2gw session at HEAD: ticks read the l2gw segment (entries 3 = access, 4 = handoff), the segment restarts, the
+   handoff index is lost by a restart until the session is restored; the Stop reads the INTERFACE table at index 3
+   (value 7) — with fix_l2stop it reads the segment (entry 3 = 1 byte) *)
 Definition ex_l2gw : list sev :=
   [EActive 3 4; ETick (Snaps None (Some [(3, (500, 5)); (4, (900, 9))])) true;
    ETick (Snaps None (Some [(3, (40, 1)); (4, (60, 2))])) true; ERestart; ERestored 3 4;
    ETick (Snaps None (Some [(4, (100, 3))])) true; EReleased (rdg 3 1)].
+Definition sent_io (l : list out) : list (N * N) :=
+  map (fun c => (rxb c, txb c)) (flat_map (fun o => match o with Interim c _ => [c] | Stop c => [c] | Start => [] end) l).
 Example C09_nonvacuous_l2gw :
-  lrun_wraps repaired true sst0 ex_l2gw = false /\ no_prune ex_l2gw = true /\
-  map (fun c => (rxb c, txb c))
-      (flat_map (fun o => match o with Interim c _ => [c] | Stop c => [c] | Start => [] end)
-                (outputs (snd (lrun repaired true sst0 ex_l2gw)))) = [(500, 900); (540, 960); (540, 1060); (547, 1067)].
+  lrun_wraps head true sst0 ex_l2gw = false /\ no_prune ex_l2gw = true /\
+  sent_io (outputs (snd (lrun head true sst0 ex_l2gw))) = [(500, 900); (540, 960); (540, 1060); (547, 1067)] /\
+  sent_io (outputs (snd (lrun (V false false true) true sst0 ex_l2gw))) = [(500, 900); (540, 960); (540, 1060); (541, 1060)].
 Proof. vm_compute. repeat split. Qed.
 Print Assumptions C09_nonvacuous_l2gw.
 
-(* the two hypotheses are needed: with a u64 wrap, or a restore after the orphan prune, even the repaired
-   component reports a decrease *)
+(* delayed Start, then tick and release, then the Start is let through *)
+Definition ex_delay : list dev :=
+  [DHold true; DEv (EActive 5 0); DEv (ETick (rd 5 400) true); DEv (EReleased (rd 5 500)); DRelease].
+Example C09_nonvacuous_delivery :
+  lrun_wraps head false sst0 (dev_events ex_delay) = false /\ never_restored (dev_events ex_delay) = true /\
+  no_delay ex_delay = false /\
+  map status_of (snd (drun head false dst0 ex_delay)) = [3; 2; 1] /\           (* HEAD: Interim, Stop, Start *)
+  map status_of (snd (drun repaired false dst0 ex_delay)) = [1; 3; 2].         (* ordered: Start, Interim, Stop *)
+Proof. vm_compute. repeat split. Qed.
+Print Assumptions C09_nonvacuous_delivery.
+
+(* the hypotheses are needed *)
 Example C09_wrap_hypothesis_needed :
   exists evs, no_prune evs = true /\ lrun_wraps repaired false sst0 evs = true /\
               nondecreasing c4z (outputs (snd (lrun repaired false sst0 evs))) = false.
@@ -185,29 +253,37 @@ Proof.
 Qed.
 Print Assumptions C09_prune_hypothesis_needed.
 
-(* ---------------- the code as found violates the property ---------------- *)
-(* readings 1000 then 5 are reported as 1000 then 5 *)
-Theorem C09_monotone_refuted :
+(* ================= /repo HEAD violates the property (recorded findings) ================= *)
+(* a report whose Accounting-Response was lost (2000) is followed by a smaller one (1005) *)
+Theorem C09_monotone_sent_refuted :
+  exists evs, lrun_wraps head false sst0 evs = false /\ no_prune evs = true /\
+              nondecreasing_sent c4z (outputs (snd (lrun head false sst0 evs))) = false.
+Proof. exists [EActive 5 0; ETick (rd 5 1000) true; ETick (rd 5 2000) false; ETick (rd 5 5) true]. vm_compute. auto. Qed.
+Print Assumptions C09_monotone_sent_refuted.
+
+(* a delayed Start goroutine: the backend sees the Stop (or an Interim) before the Start *)
+Theorem C09_delivered_strict_refuted :
+  exists xs, lrun_wraps head false sst0 (dev_events xs) = false /\ no_prune (dev_events xs) = true /\
+             never_restored (dev_events xs) = true /\
+             strict false (snd (drun head false dst0 xs)) = false.
+Proof. exists [DHold true; DEv (EActive 5 0); DEv (EReleased (rd 5 9)); DRelease]. vm_compute. auto. Qed.
+Print Assumptions C09_delivered_strict_refuted.
+
+(* ================= the code as first found (fixed in /repo: 7e92d8e, e0693a6, d70a5ae) ================= *)
+Theorem C09_first_found_monotone_refuted :
   exists evs, lrun_wraps defective false sst0 evs = false /\ no_prune evs = true /\
               nondecreasing c4z (outputs (snd (lrun defective false sst0 evs))) = false.
 Proof. exists [EActive 5 0; ETick (rd 5 1000) true; ETick (rd 5 5) true]. vm_compute. auto. Qed.
-Print Assumptions C09_monotone_refuted.
+Print Assumptions C09_first_found_monotone_refuted.
 
-(* a repeated Released sends a second Stop; a Released with nothing open sends a Stop *)
-Theorem C09_stop_once_refuted :
+Theorem C09_first_found_stop_once_refuted :
   exists evs, lrun_wraps defective false sst0 evs = false /\
               stops_ok false (snd (lrun defective false sst0 evs)) = false.
 Proof. exists [EActive 5 0; EReleased (Snaps None None); EReleased (Snaps None None)]. vm_compute. auto. Qed.
-Print Assumptions C09_stop_once_refuted.
+Print Assumptions C09_first_found_stop_once_refuted.
 
-(* after a restart, Active before Restored sends a second Start *)
-Theorem C09_start_once_refuted :
+Theorem C09_first_found_start_once_refuted :
   exists evs, lrun_wraps defective false sst0 evs = false /\ no_prune evs = true /\
               bracketed false (outputs (snd (lrun defective false sst0 evs))) = false.
 Proof. exists [EActive 5 0; ERestart; EActive 5 0]. vm_compute. auto. Qed.
-Print Assumptions C09_start_once_refuted.
-
-Theorem C09_bracket_refuted :
-  exists evs, lrun_wraps defective false sst0 evs = false /\ accepted (snd (lrun defective false sst0 evs)) = false.
-Proof. exists [EReleased (Snaps None None)]. vm_compute. auto. Qed.
-Print Assumptions C09_bracket_refuted.
+Print Assumptions C09_first_found_start_once_refuted.
